@@ -1,5 +1,5 @@
 """C12 - 3-D group results sit at the position of their signal."""
-import warnings
+import sys, warnings
 import numpy as np
 from core import Result
 import proto, gen, implutil
@@ -32,6 +32,8 @@ def _grid(seed, n0, n1):
             s = gen.make_signal(np.random.default_rng([seed, i, j]), family=['bursty', 'sum', 'asym', 'noise'][(i * n1 + j) % 4], fs=200, f0=10, n=400)['sig'].copy()
             s[0] = 1000.0 + i * n1 + j
             sigs[i, j] = s
+    if seed % 7 == 3 and n0 * n1 >= 3:           # the SAME recording at two positions (with per-signal options the two analyses still differ)
+        sigs[n0 - 1, n1 - 1] = sigs[0, 0]
     return sigs, 200, (7.0, 13.0)
 
 def corpus(ctx):
@@ -41,7 +43,51 @@ def corpus(ctx):
             # directed: ONE shared option dict carrying a popped option (center_extrema) reaches every slice, whatever the
             # number of workers (an in-process map with n_jobs=1 shares the object between slices, a pool pickles copies)
             dict(seed=5 + n0, n0=n0, n1=n1, axis=ax, kw='dict', oids=[1], n_jobs=nj, rs=rs, delay='none', via='func')
-            for (n0, n1) in ((3, 2), (2, 3)) for ax in ('0', '1', 'a01') for nj in (1, 2) for rs in (True, False)]
+            for (n0, n1) in ((3, 2), (2, 3)) for ax in ('0', '1', 'a01') for nj in (1, 2) for rs in (True, False)] + [
+            # directed: the same recording at [0][0] and [n0-1][n1-1] (seed % 7 == 3) with different per-signal options
+            dict(seed=10, n0=2, n1=3, axis='a01', kw='list', oids=[0, 1, 2, 3, 2, 1], n_jobs=1, rs=True, delay='none', via='func'),
+            dict(seed=17, n0=2, n1=2, axis='a01', kw='list', oids=[2, 1, 0, 0], n_jobs=2, rs=True, delay='reverse', via='func'),
+            dict(kind='spawn', seed=0, n0=2, n1=2, axis='0', kw='dict', oids=[1], n_jobs=2, rs=True, delay='none', via='func')]
+
+SPAWN_SCRIPT = r'''
+import multiprocessing as mp, sys, warnings
+import numpy as np
+warnings.simplefilter('ignore')
+if __name__ == '__main__':
+    mp.set_start_method('spawn')
+    from bycycle.group import compute_features_3d
+    from bycycle.features import compute_features
+    rng = np.random.default_rng(7)
+    t = np.arange(400) / 200
+    sigs = np.array([[np.sin(2 * np.pi * (9 + i + j) * t + i) + 0.3 * rng.standard_normal(400) for j in range(2)] for i in range(2)])
+    opts = {'center_extrema': 'trough', 'threshold_kwargs': {'min_n_cycles': 2}}
+    for axis in (0, 1, (0, 1)):
+        res = compute_features_3d(sigs, 200, (7.0, 13.0), compute_features_kwargs=dict(opts), axis=axis, n_jobs=2)
+        for i in range(2):
+            for j in range(2):
+                if 'sample_trough' not in res[i][j].columns:
+                    print('axis=%r: entry [%d][%d] was not analysed with the options given (worker start method spawn)' % (axis, i, j)); sys.exit(1)
+        if axis == (0, 1):
+            for i in range(2):
+                for j in range(2):
+                    if not res[i][j].equals(compute_features(sigs[i, j], 200, (7.0, 13.0), **opts)):
+                        print('axis=(0, 1): entry [%d][%d] differs from the analysis of its signal' % (i, j)); sys.exit(1)
+    print('ok')
+'''
+
+def _spawn_case():
+    """the group analysis in a process whose multiprocessing START METHOD is 'spawn' (the default outside Linux): workers do not inherit module state"""
+    import subprocess, os, tempfile
+    env = dict(os.environ)
+    with tempfile.NamedTemporaryFile('w', suffix='.py', delete=False) as f:
+        f.write(SPAWN_SCRIPT); path = f.name
+    try:
+        p = subprocess.run([sys.executable, path], capture_output=True, text=True, timeout=300, env=env)
+        return None if p.returncode == 0 else (p.stdout.strip().split('\n')[-1] or p.stderr.strip().split('\n')[-1])[:200]
+    except Exception as e:
+        return 'spawn run failed: ' + type(e).__name__
+    finally:
+        os.unlink(path)
 
 def generate(ctx):
     rng = ctx.rng
@@ -63,6 +109,10 @@ def evaluate(ctx, cases):
     from bycycle.group import compute_features_3d, compute_features_2d
     from bycycle.features import compute_features
     from bycycle import BycycleGroup
+    spawn_results = {}
+    for i, c in enumerate(cases):
+        if c.get('kind') == 'spawn':
+            spawn_results[i] = _spawn_case()
     reqs = []
     for c in cases:
         kw = 'None' if c['kw'] == 'none' else ('[one,%d]' % (c['oids'][0] + 1) if c['kw'] == 'dict' else '[many,%s]' % proto.enc_ints([o + 1 for o in c['oids']]))
@@ -73,6 +123,10 @@ def evaluate(ctx, cases):
     ans = proto.run_driver(reqs)
     out = []
     for k, c in enumerate(cases):
+        if k in spawn_results:
+            msg = spawn_results[k]
+            ctx.hist('axis', 'spawn start method')
+            out.append(Result(c, judge_ok=msg is None, corr_ok=msg is None, sig='spawn', nontrivial=True, info=(dict(judge=msg) if msg else {}))); continue
         model, spec = ans[2 * k], ans[2 * k + 1]
         n0, n1 = c['n0'], c['n1']
         sigs, fs, fr = _grid(c['seed'], n0, n1)
